@@ -47,13 +47,13 @@ CLAIMS = {
  "C17": ("SMT (z3) equivalence, per $defs entry, of each of the four published schema files with the schema regenerated from the current pydantic models "
          "under the same config; $ref handled coinductively, so the verdict covers documents of any size; every difference is concretised and must be "
          "confirmed by jsonschema on both documents before it is reported; defaults / discriminators / required sets / version string compared too.", "§6 C17"),
- "C12": ("Real exporter interpreted on 7 builder templates and a parametrised module (32 variants) and checked against a transcription of the statement / "
+ "C12": ("Real exporter interpreted on 8 builder templates and a parametrised module (256 variants) and checked against a transcription of the statement / "
          "export.rs rules (value-port lists, link-name partition, function symbols, order hints with keys, regions mirror hierarchy, metadata); "
          "link-name partition additionally over solver-chosen link sets; binding attribute names extracted from the Rust source each run.", "§6 C12"),
- "C20": ("Real DotRenderer on 7 builder templates x 6 configurations and on solver-chosen store shapes; the DOT source is parsed back: one node statement "
+ "C20": ("Real DotRenderer on 8 builder templates x 6 configurations, on container-rooted HUGRs and on solver-chosen store shapes; the DOT source is parsed back: one node statement "
          "per node with display name and one cell per counted port, clusters nested as the hierarchy, one edge per link with the right endpoints and type "
          "label, store unchanged, configurations differ only in colours / name qualification. (Solver = choice space only; stated in evidence.)", "§6 C20"),
- "C01": ("Bounded builder programs (13 step kinds, solver-chosen steps and wires; 7 templates; insert_* wrappers) serialised by the real to_json and judged "
+ "C01": ("Bounded builder programs (17 step kinds, solver-chosen steps and wires; 8 templates; insert_* wrappers) serialised by the real to_json and judged "
          "by a Python transcription of hugr-core's validation rules (children, rows, port counts, edge kinds/types, connectivity/linearity, acyclicity, "
          "Ext/Dom edges with dominance, constants); the per-mechanism lemmas are discharged under C03/C06/C13/C14/C16.", "§6 C01"),
 }
